@@ -109,6 +109,7 @@ def intro_param(ex, st, name, kind, pycls_default=None):
         st.assume(z3.Or(V.is_none(v), cons))
         for k_, t_ in st2.types.items():
             st.types[k_] = t_
+        st.keep.extend(st2.keep)
         return v
     simple = {"str": V.is_str, "int": V.is_int, "bool": V.is_bool, "float": V.is_float, "list": V.is_list,
               "dict": V.is_dict, "tuple": V.is_tuple, "fun": V.is_fun, "bytes": V.is_bytes, "none": V.is_none}
